@@ -83,6 +83,9 @@ pub struct Profile {
     pub corrupt_permille: u64,
     /// fault-free, equal stakes, constant equal link latency: one voting round is deterministic
     pub lockstep: bool,
+    /// partitions mostly cut off a single node for a few seconds while the rest keeps finalizing:
+    /// the node falls behind (possibly while it is the leader) and catches up after the heal
+    pub isolate_bias: bool,
     /// C16 in the cluster: fault-free, but links have unequal (constant) extra delays, so that a
     /// relay can receive the other relays' broadcasts before its own shred from the leader
     pub asym_delays: bool,
@@ -110,6 +113,7 @@ impl Profile {
             forger: false,
             corrupt_permille: 0,
             lockstep: false,
+            isolate_bias: false,
             asym_delays: false,
             standstill: false,
         }
@@ -239,9 +243,13 @@ pub fn draw_cfg(p: &Profile) -> ClusterCfg {
             let k = 1 + kernel::choose(CFG, 2);
             for _ in 0..k {
                 let at_ms = kernel::choose(CFG, fault_window.max(1));
-                let len = 500 + kernel::choose(CFG, 16) * 500;
+                // (long enough, with the isolation bias, for the lone node to miss its own leader window)
+                let len = if p.isolate_bias { 4_000 + kernel::choose(CFG, 24) * 500 } else { 500 + kernel::choose(CFG, 16) * 500 };
                 let groups = 2 + kernel::choose(CFG, 2) as u8;
-                let group: Vec<u8> = if kernel::choose(CFG, 2) == 0 {
+                let group: Vec<u8> = if p.isolate_bias && kernel::choose(CFG, 4) != 0 {
+                    let lone = kernel::choose(CFG, n as u64) as usize;
+                    (0..n).map(|i| u8::from(i == lone)).collect()
+                } else if kernel::choose(CFG, 2) == 0 {
                     (0..n).map(|_| kernel::choose(CFG, u64::from(groups)) as u8).collect()
                 } else {
                     // split the correct nodes evenly, Byzantine nodes join group 0
